@@ -964,8 +964,9 @@ func (n *node) Kill(pid gen.PID) error {
 	lib.VerifPoint("kill.zombie", p)
 	state := atomic.SwapInt32(&p.state, int32(gen.ProcessStateZombee))
 	switch state {
-	case int32(gen.ProcessStateWaitResponse), int32(gen.ProcessStateRunning):
+	case int32(gen.ProcessStateWaitResponse), int32(gen.ProcessStateRunning), int32(gen.ProcessStateZombee):
 		// do not unregister process until its goroutine stopped
+		// (Zombee: it has been killed already and its finaliser is on the way)
 		return nil
 	case int32(gen.ProcessStateTerminated):
 		lib.VerifPoint("kill.restore", p)
